@@ -49,8 +49,10 @@ def run_demo(sd):
         dst = os.path.join(WT, pkgdir, "zz_seed_" + f)
         shutil.copyfile(os.path.join(sd, f), dst)
         names = re.findall(r"^func (Test\w+)\(", src, re.M)
-        rc, out = sh(["flock", "/tmp/flamego-gotest.lock", "go", "test", "-vet=off", "-count=1", "-run", "^(" + "|".join(names) + ")$", "./" + pkgdir],
-                     cwd=WT, timeout=900)
+        race = ["-race"] if "-race" in src or "go test -race" in open(os.path.join(sd, "meta.json")).read() else []
+        env = dict(ENV, CGO_ENABLED="1") if race else ENV
+        rc, out = sh(["flock", "/tmp/flamego-gotest.lock", "go", "test"] + race + ["-vet=off", "-count=1", "-run", "^(" + "|".join(names) + ")$", "./" + pkgdir],
+                     cwd=WT, env=env, timeout=900)
         os.remove(dst)
         return ("pass" if rc == 0 else "fail"), out[-1500:]
     if mains:
